@@ -18,7 +18,9 @@ def enc_real(x):
     if xf != xf or xf in (float('inf'), float('-inf')):
         raise Inexact('nan/inf')
     fr = Fraction(xf)
-    if fr.denominator > MAXDEN or abs(fr.numerator) > MAXNUM:
+    # dyadic rationals: a small numerator over ANY power of two is fine (uniformly scaled data, e.g. entries of size 2^-60,
+    # behave exactly like unscaled data); what is excluded are values carrying many significant bits
+    if abs(fr.numerator) > MAXNUM or (fr.denominator > MAXDEN and abs(fr.numerator) > (1 << 30)) or fr.denominator > (1 << 600):
         raise Inexact(f'{xf!r}')
     if fr.denominator == 1:
         return int(fr.numerator)
